@@ -51,6 +51,9 @@ enum Peer {
     /// bulk operations only: the replica's storage writes the first document of the batch and
     /// then fails, reporting that one id as written
     StoragePartial,
+    /// the node is a live member but does not (yet) run the store's consistency service:
+    /// its RPC server answers with the error status ServiceUnavailable
+    NoService,
 }
 
 #[derive(Clone, Debug)]
@@ -167,6 +170,12 @@ async fn execute(sc: &Scenario) -> Outcome {
         if *p == Peer::StoragePartial {
             let i = cluster.index_of(*n);
             cluster.nodes[i].storage.plan([Fault::FailAfter(1)]);
+        }
+        if *p == Peer::NoService {
+            let i = cluster.index_of(*n);
+            cluster.nodes[i]
+                .server
+                .remove_service(<datacake_eventual_consistency::verif::ConsistencyService<S> as datacake_rpc::RpcService>::service_name());
         }
     }
     let log_before = cluster.nodes[ii].storage.log_len();
@@ -357,7 +366,7 @@ pub fn run(tier: Tier) -> i32 {
     for layout in layouts(tier.is_thorough()) {
         for (issuer, _) in &layout {
             let others: Vec<NodeId> = layout.iter().map(|(n, _)| *n).filter(|n| n != issuer).collect();
-            for peers in peer_assignments(&others, &[Peer::Ack, Peer::DropRequest, Peer::DropReply, Peer::StorageFails, Peer::StoragePartial]) {
+            for peers in peer_assignments(&others, &[Peer::Ack, Peer::DropRequest, Peer::DropReply, Peer::StorageFails, Peer::StoragePartial, Peer::NoService]) {
                 for level in LEVELS {
                     for kind in &kinds {
                         // a single-document storage call cannot fail part-way
@@ -405,7 +414,7 @@ pub fn run(tier: Tier) -> i32 {
                 for a in &assignments {
                     let first_free = a.iter().rev().take_while(|(_, p)| **p == Peer::Ack).count();
                     for n in others.iter().skip(others.len() - first_free) {
-                        for f in [Peer::DropRequest, Peer::StorageFails] {
+                        for f in [Peer::DropRequest, Peer::StorageFails, Peer::NoService] {
                             let mut b = a.clone();
                             b.insert(*n, f);
                             next.push(b);
@@ -492,6 +501,7 @@ pub fn replay(case: &J) -> i32 {
                 "DropReply" => Peer::DropReply,
                 "StorageFails" => Peer::StorageFails,
                 "StoragePartial" => Peer::StoragePartial,
+                "NoService" => Peer::NoService,
                 _ => Peer::Ack,
             };
             Some((n.parse().ok()?, p))
